@@ -603,6 +603,9 @@ def check_C15(run):
                               "(Merge.v) and is the identity of the specification"),
                              ("merge1", "merge1", 150, 3000, RULE_HIST + "; the same in HintKeyAndRAMIdxMode (values read back through "
                               "the index hints Merge rewrites)"),
+                             ("mergezpos", "mergezpos", 200, 4000, RULE_HIST + "; profile mergezpos: one sorted set with many rank-range "
+                              "removals, pops and removals by key on small segments (whole segments die), Merge and reopen after a third "
+                              "of the transactions (the scenario of fix 71d5512)"),
                              ("mergelist", "mergelist", 100, 2000, RULE_HIST + "; profile mergelist: lists included — impl = model must "
                               "hold; spec failures on list calls after a Merge are attributed to known finding F14")],
                        known=known_merge)
